@@ -73,6 +73,7 @@ func hostileProfile(r *rand.Rand) (gen.Profile, gen.DataCfg) {
 func oddNamesProfile(r *rand.Rand) (gen.Profile, gen.DataCfg) {
 	p, d := stdProfile(r)
 	p.NodeNamedField, p.ScalarArgs = 0.5, true
+	p.ValueWithID = 0.5
 	p.PArgs = 0.45
 	return p, d
 }
